@@ -1,6 +1,7 @@
 import CedarVerif.Lemmas.SchemaSyntax
 import CedarVerif.Lemmas.SchemaDecl
 import CedarVerif.Lemmas.SchemaDecl2
+import CedarVerif.Lemmas.SchemaCollect
 /-
 C09 — the JSON and the Cedar schema syntaxes denote the same schema.
 
@@ -499,5 +500,128 @@ example : (normFragment demoFragment).empty.map (fun d => d.actions.map fun x =>
     (normFragment demoFragment).named.map (fun x => x.2.actions.map fun y => (y.1, y.2.memberOf)) =
       [[("all", none), ("view doc", some [⟨some ⟨[], "Action"⟩, "all"⟩, ⟨some ⟨["NS"], "Action"⟩, "adm in"⟩])]] := by
   refine ⟨by decide, by decide⟩
+
+/-! ## the `BTreeMap` collection of the parsed declarations (`Cedar/SchemaCollect.lean`, lemmas `Lemmas/SchemaCollect.lean`) -/
+
+/-- WHOLE FRAGMENT, COLLECTED: for a JSON fragment with the `BTreeMap` invariant at every level (`FragKeysOK`: keys distinct and in
+key order — `SmolStr` order for declaration names, the derived `InternalName` order, basename first, for namespace names), printing,
+parsing, the duplicate checks of `build_namespace_bindings` and the `BTreeMap` collection give exactly `normFragment f`: nothing is
+refused as a duplicate and no entry moves. -/
+theorem fragment_roundtrip_collected (f : FragmentJ) (hw : WFFrag f) (hs : SortedFrag f) (hk : FragKeysOK f) :
+    parseFragmentCollected (printFragmentJ f) = .ok (normFragment f) := by
+  simp only [parseFragmentCollected, fragment_roundtrip f hw hs]
+  exact collectFragment_of_keysOK _ (fragKeysOK_normFragment f hk)
+
+/-- the same statement with the two stages visible -/
+theorem fragment_roundtrip_collected_bind (f : FragmentJ) (hw : WFFrag f) (hs : SortedFrag f) (hk : FragKeysOK f) :
+    (parseFragment (printFragmentJ f)).map collectFragment = some (.ok (normFragment f)) := by
+  rw [fragment_roundtrip f hw hs]
+  simp [collectFragment_of_keysOK _ (fragKeysOK_normFragment f hk)]
+
+theorem demoFragment_keysOK : FragKeysOK demoFragment := by
+  refine ⟨?_, ?_, ?_⟩
+  · intro d hd
+    simp only [demoFragment, Option.some.injEq] at hd
+    subst hd
+    refine ⟨?_, ?_, ?_⟩ <;> simp [KeysSorted] <;> decide +kernel
+  · intro x hx
+    simp only [demoFragment, List.mem_cons, List.not_mem_nil, or_false] at hx
+    subst hx
+    refine ⟨?_, ?_, ?_⟩ <;> simp [KeysSorted] <;> decide +kernel
+  · simp [demoFragment]
+
+example : parseFragmentCollected (printFragmentJ demoFragment) = .ok (normFragment demoFragment) :=
+  fragment_roundtrip_collected _ demoFragment_ok.1 demoFragment_ok.2 demoFragment_keysOK
+
+/-- some namespace of the fragment declares an entity type, an action or a common type twice -/
+def DupDecl (f : FragmentJ) : Prop :=
+  ∃ d, (f.empty = some d ∨ ∃ q, (q, d) ∈ f.named) ∧
+    (hasDupKeys (d.entities.map (·.1)) = true ∨ hasDupKeys (d.actions.map (·.1)) = true ∨ hasDupKeys (d.commons.map (·.1)) = true)
+
+theorem dupDecl_iff (f : FragmentJ) : DupDecl f ↔ (f.named.any (fun x => nsHasDup x.2) || optNsHasDup f.empty) = true := by
+  simp only [DupDecl, Bool.or_eq_true, List.any_eq_true]
+  constructor
+  · rintro ⟨d, hd | ⟨q, hq⟩, h⟩
+    · right; simpa [hd, optNsHasDup, nsHasDup, or_assoc] using h
+    · left; exact ⟨(q, d), hq, by simpa [nsHasDup, or_assoc] using h⟩
+  · rintro (⟨x, hx, h⟩ | h)
+    · exact ⟨x.2, Or.inr ⟨x.1, hx⟩, by simpa [nsHasDup, or_assoc] using h⟩
+    · cases he : f.empty with
+      | none => simp [he, optNsHasDup] at h
+      | some d => exact ⟨d, Or.inl rfl, by simpa [he, optNsHasDup, nsHasDup, or_assoc] using h⟩
+
+/-- DUPLICATES are refused with the modelled error class, and only they are refused: a repeated entity-type / action / common-type
+name in one namespace is `DuplicateDeclarations` (whatever else the fragment contains); otherwise a repeated namespace name is
+`DuplicateNameSpaces`; otherwise the fragment is accepted (its entries sorted).  A name declared BOTH as an entity type and as a
+common type is no duplicate (`collect_allows_entity_common_clash`). -/
+theorem collect_rejects_duplicates (f : FragmentJ) :
+    (DupDecl f → collectFragment f = .error .duplicateDecl) ∧
+    (¬ DupDecl f → hasDupKeys (f.named.map (·.1)) = true → collectFragment f = .error .duplicateNamespace) ∧
+    (¬ DupDecl f → hasDupKeys (f.named.map (·.1)) = false → ∃ g, collectFragment f = .ok g) := by
+  refine ⟨?_, ?_, ?_⟩
+  · intro h
+    simp [collectFragment, (dupDecl_iff f).1 h]
+  · intro h h2
+    have : (f.named.any (fun x => nsHasDup x.2) || optNsHasDup f.empty) = false := by
+      cases hb : (f.named.any (fun x => nsHasDup x.2) || optNsHasDup f.empty) with
+      | false => rfl
+      | true => exact absurd ((dupDecl_iff f).2 hb) h
+    simp [collectFragment, this, h2]
+  · intro h h2
+    have : (f.named.any (fun x => nsHasDup x.2) || optNsHasDup f.empty) = false := by
+      cases hb : (f.named.any (fun x => nsHasDup x.2) || optNsHasDup f.empty) with
+      | false => rfl
+      | true => exact absurd ((dupDecl_iff f).2 hb) h
+    simp [collectFragment, this, h2]
+
+/-- the keys of one namespace: common types, entity types, actions -/
+structure NsKeys where
+  commons : List String
+  entities : List String
+  actions : List String
+deriving DecidableEq, Repr
+
+/-- what a text is answered: the error class, or the keys in collected order -/
+structure CollectOutcome where
+  err : Option DeclErr
+  empty : Option NsKeys
+  named : List (QName × NsKeys)
+deriving DecidableEq, Repr
+
+def nsKeysOf (d : NamespaceJ) : NsKeys := ⟨d.commons.map (·.1), d.entities.map (·.1), d.actions.map (·.1)⟩
+
+def collectOutcome (toks : List Tok) : CollectOutcome :=
+  match parseFragmentCollected toks with
+  | .error e => ⟨some e, none, []⟩
+  | .ok g => ⟨none, g.empty.map nsKeysOf, g.named.map fun x => (x.1, nsKeysOf x.2)⟩
+
+/-- each duplicate kind, end to end from tokens: `entity A; entity A;` · `entity A, A;` · `entity A; entity A enum ["x"];` ·
+`action a; action "a";` · `type T = Long; type T = Bool;` (all `DuplicateDeclarations`) · `namespace N {} namespace N {}`
+(`DuplicateNameSpaces`) · a duplicate declaration wins over a duplicate namespace · the same name in DIFFERENT namespaces is fine -/
+theorem collect_rejects_duplicates_examples :
+    (collectOutcome [.id "entity", .id "A", .other ";", .id "entity", .id "A", .other ";"]).err = some .duplicateDecl ∧
+    (collectOutcome [.id "entity", .id "A", .comma, .id "A", .other ";"]).err = some .duplicateDecl ∧
+    (collectOutcome [.id "entity", .id "A", .other ";", .id "entity", .id "A", .id "enum", .other "[", .str "x", .other "]", .other ";"]).err = some .duplicateDecl ∧
+    (collectOutcome [.id "action", .id "a", .other ";", .id "action", .str "a", .other ";"]).err = some .duplicateDecl ∧
+    (collectOutcome [.id "type", .id "T", .other "=", .id "Long", .other ";", .id "type", .id "T", .other "=", .id "Bool", .other ";"]).err = some .duplicateDecl ∧
+    (collectOutcome [.id "namespace", .id "N", .lb, .rb, .id "namespace", .id "N", .lb, .rb]).err = some .duplicateNamespace ∧
+    (collectOutcome [.id "namespace", .id "N", .lb, .id "entity", .id "A", .comma, .id "A", .other ";", .rb, .id "namespace", .id "N", .lb, .rb]).err = some .duplicateDecl ∧
+    collectOutcome [.id "namespace", .id "N", .lb, .id "entity", .id "A", .other ";", .rb, .id "entity", .id "A", .other ";"] =
+      ⟨none, some ⟨[], ["A"], []⟩, [(⟨[], "N"⟩, ⟨[], ["A"], []⟩)]⟩ := by
+  refine ⟨by decide +kernel, by decide +kernel, by decide +kernel, by decide +kernel, by decide +kernel, by decide +kernel,
+    by decide +kernel, by decide +kernel⟩
+
+/-- `entity T; type T = Long;`: entity names and common-type names are collected into different maps — NOT refused here (whether the
+pair is usable is decided by name resolution: `envOK_needed_clash`) -/
+theorem collect_allows_entity_common_clash :
+    collectOutcome [.id "entity", .id "T", .other ";", .id "type", .id "T", .other "=", .id "Long", .other ";"] =
+      ⟨none, some ⟨["T"], ["T"], []⟩, []⟩ := by decide +kernel
+
+/-- the collection SORTS: declarations and namespaces written out of order come back in key order; namespace names are ordered by
+BASENAME first (`B::A` before `A::B`: derived `Ord` of `InternalName`) -/
+theorem collect_sorts_example :
+    collectOutcome [.id "entity", .id "b", .comma, .id "a", .other ";", .id "action", .id "z", .comma, .str "A b", .other ";",
+        .id "namespace", .id "A", .dcolon, .id "B", .lb, .rb, .id "namespace", .id "B", .dcolon, .id "A", .lb, .rb, .id "entity", .id "B", .other ";"] =
+      ⟨none, some ⟨[], ["B", "a", "b"], ["A b", "z"]⟩, [(⟨["B"], "A"⟩, ⟨[], [], []⟩), (⟨["A"], "B"⟩, ⟨[], [], []⟩)]⟩ := by decide +kernel
 
 end Cedar.C09
